@@ -106,3 +106,21 @@ def never_call(*args, **kwargs) -> typing.NoReturn:
 
 def ast_debug_info(node: stmt | expr):
     return f"At line {node.lineno}, col {node.col_offset}: "
+
+
+def check_dropped_annotation(annotation: expr | None) -> None:
+    """
+    Annotations are dropped by the converter.
+    A yield or an await inside of an annotation can not be dropped silently
+    (it turns the enclosing function into a generator), refuse it.
+    """
+    if annotation is None:
+        return
+    for node in walk(annotation):
+        if isinstance(node, (Yield, YieldFrom, Await)) or (
+            isinstance(node, comprehension) and node.is_async
+        ):
+            raise RuntimeError(
+                ast_debug_info(annotation)
+                + f"Unable to convert node '{type(node).__name__}'"
+            )
